@@ -329,11 +329,11 @@ PLANS = {
                      G("merge_many", 1, 4, "TraceMerger", "TraceMerger.cfg", heavy=False)]),
     "C07": dict(level="model_checking", assumptions=TRUST + ["hook H2 lowers the minimum budget / initial capacity for the small-scale runs; rayon schedules are sampled (pool sizes), not enumerated"],
                 mc=[MC("MCSorter", "MCSorter_content.cfg", workers=8), MC("MCSorter", "MCSorter_content1.cfg", workers=8)],
-                gen=[G("sorter", 320, 12000, "TraceSorter", "TraceSorter_C07.cfg"),
+                gen=[G("sorter", 320, 8000, "TraceSorter", "TraceSorter_C07.cfg"),
                      G("sorter", 160, 4000, "TraceSorter", "TraceSorter_C07.cfg", release=True),
                      # "any chunk creator": chunk storage that accepts / returns a few bytes per call
-                     G("sorter", 120, 3000, "TraceSorter", "TraceSorter_C07.cfg", extra=["--wsched", "rand3", "--rsched", "rand4"]),
-                     G("sorter", 40, 1000, "TraceSorter", "TraceSorter_C07.cfg", extra=["--wsched", "one", "--rsched", "lenm1"]),
+                     G("sorter", 120, 1500, "TraceSorter", "TraceSorter_C07.cfg", extra=["--wsched", "rand3", "--rsched", "rand4"]),
+                     G("sorter", 40, 400, "TraceSorter", "TraceSorter_C07.cfg", extra=["--wsched", "one", "--rsched", "lenm1"]),
                      G("sorter_real", 4, 48, "TraceSorter", "TraceSorter_C07.cfg")]),
     "C08": dict(level="model_checking", assumptions=TRUST + ["hook H2 lowers the minimum budget / initial capacity for the small-scale runs"],
                 mc=[MC("MCSorter", "MCSorter_acct_realloc.cfg", workers=4), MC("MCSorter", "MCSorter_acct_fixed.cfg", workers=4),
